@@ -358,6 +358,90 @@ def check_query_schedule(c, rec):
         rec.nontriv([[(n, w if isinstance(w, str) else list(w)) for n, w in trace][:80]])
 
 
+# ---------------------------------------------------------------------------------------- late replies
+
+@st.composite
+def late_programs(draw):
+    nthreads = draw(st.integers(1, 3))
+    n = 0
+    threads = []
+    for _ in range(nthreads):
+        acts = []
+        for _ in range(draw(st.integers(1, 4))):
+            n += 1
+            acts.append(["ask", 200 + n])
+        threads.append(acts)
+    # per reply (in the order the requests reach the terminal): on time, or later than the 0.1 s query timeout
+    delays = [draw(st.sampled_from([0.0, 0.0, 0.03, 0.15, 0.25])) for _ in range(n)]
+    if not any(d > 0.1 for d in delays):
+        delays[draw(st.integers(0, n - 1))] = 0.15
+    return {"threads": threads, "delays": delays, "schedule": draw(st.lists(st.integers(0, 5), min_size=1, max_size=40))}
+
+
+def check_late_replies(c, rec):
+    """A reply that arrives after its query has timed out belongs to nobody any more: "Any unread input is
+    discarded before the query" (query_terminal).  Callers are synchronized functions that send an id-carrying
+    query and then keep the terminal for 0.3 s (the late reply arrives meanwhile); under every schedule each
+    query gets exactly its own reply or - when that reply is late - nothing, never the reply to another one."""
+    from .. import simtty
+    from ..sched import Deadlock, Scheduler, ThreadSLock
+
+    T = simtty.TERM
+    sched = Scheduler(c["schedule"])
+    saved = {k: getattr(U, k) for k in ("_tty_lock", "_queries_enabled", "_query_timeout")}
+    U._tty_lock = ThreadSLock(sched, "tty0")
+    U._queries_enabled, U._query_timeout = True, 0.1
+    T.reset({"delays": list(c["delays"])})
+    order = []  # ids in the order their requests reach the terminal
+    results = []
+
+    @U.lock_tty
+    def ask(pid):
+        msg = b"\x1b]7777;%d\x1b\\" % pid
+        order.append(pid)
+        r = U.query_terminal(msg, lambda s: not s.endswith(b"\x1b\\"))
+        T.idle(0.3)
+        return r
+
+    def make(name, acts):
+        def run():
+            for a in acts:
+                results.append((name, a[1], ask(a[1])))
+        return run
+
+    for i, acts in enumerate(c["threads"]):
+        sched.spawn(f"T{i}", make(f"T{i}", acts))
+    err = None
+    try:
+        sched.run()
+    except Deadlock as e:
+        err = Violation(f"deadlock under schedule {c['schedule']}: {e}", {"kind": "deadlock"})
+    finally:
+        for k, v in saved.items():
+            setattr(U, k, v)
+        T.idle(1.0)
+        left = T.unread_bytes()
+    if err:
+        raise err
+    what = f"threads={c['threads']} delays={c['delays']} schedule={c['schedule']}"
+    for t in sched.threads:
+        if t.exc is not None:
+            raise Violation(f"thread {t.name} raised {type(t.exc).__name__}: {t.exc} [{what}]", {"kind": "thread_exception"})
+    late = 0
+    for name, pid, got in results:
+        d = c["delays"][order.index(pid)]
+        exp = b"\x1b]7777;%d\x1b\\" % pid if d < 0.1 else b""
+        late += d > 0.1
+        if got != exp:
+            raise Violation(f"thread {name}: query {pid} (reply delayed {d}s, timeout 0.1s) returned {got!r}, expected {exp!r}: a reply "
+                            f"reached a caller it does not belong to [{what}]\n  request order={order} results={results}",
+                            {"kind": "late_reply_misdelivered"})
+    rec.label("late_then_query" if any(c["delays"][i] > 0.1 for i in range(len(order) - 1)) else "late_last_only")
+    rec.count("late_replies", late)
+    if late and len(order) >= 2:
+        rec.nontriv([c["delays"], [len(t) for t in c["threads"]], c["schedule"][:20]])
+
+
 # ---------------------------------------------------------------------------------------- engine B
 
 def run_procs(method, variant, rounds, seed):
@@ -449,6 +533,8 @@ CLAUSES = [
            floors={"with_start": 0.3, "blocked_on_old": 0.03}),
     Clause("query_schedules", check_query_schedule, query_programs, budget={"quick": 600, "thorough": 20000},
            floors={"contended": 0.3}),
+    Clause("late_replies", check_late_replies, late_programs, budget={"quick": 300, "thorough": 8000},
+           floors={"late_then_query": 0.3}),
     Clause("reentrant", check_reentrant, None, enumerate=lambda tier: [[d, s_] for s_ in (False, True) for d in (1, 2, 3)],
            enum_size=lambda t: 6, max_shards=1),
     Clause("processes", check_procs, None, enumerate=proc_cases, enum_size=lambda t: len(proc_cases(t)), max_shards=6, enum_per_shard=1),
